@@ -22,6 +22,7 @@ import Ptn.C10.LevelRun
 import Ptn.C10.LevelFlatRun
 import Ptn.C10.LevelExists
 import Ptn.C10.RecExists
+import Ptn.C10.RecTelescope
 /-! Property theorems for C10 (selection rule of the singular-value truncation).  Only property
 theorems and non-vacuity examples live here; helper lemmas are in `Lemmas.lean`, the
 specification vocabulary (`Desc`, `NonNeg`, `survives`, `Fits`, `capMin`, `renormFactor`) in
@@ -1145,7 +1146,7 @@ theorem truncate_node_level_flat_value (dim : Nat → Nat) (e : Label → Nat) {
         netValue dim (lf62Erase v.bonds all ++ all.map Ins.plain) (v.ids.map v.tens) σ) ∧
       ∀ σ, v'.value dim σ =
         netValue dim (lf62Erase v.bonds all ++ all.flatMap Ins.cut) (all.map Ins.Pm ++ v.ids.map v.tens) σ := by
-  obtain ⟨all, e1, e2, e3, e4, e5, e6, e7, e8, e9, hval⟩ := lf62_level_flat_core dim e hacc h hl hv hs hr
+  obtain ⟨all, edim, e1, e2, e3, e4, e5, e6, e7, e8, e9, hval⟩ := lf62_level_flat_core dim e hacc h hl hv hs hr
   obtain ⟨horig, hmem⟩ := e9 v.ids v.next (Nat.le_refl _) (fun k hk => ⟨hk, fun l hl' => hv.fresh k hk l hl'⟩) hn hc
   have hperm := lf62Mem_perm all v.bonds hmem
   refine ⟨all, e1, e2, e3, e5, e6, e7, ?_, hperm,
@@ -1315,5 +1316,71 @@ example : ∃ (v' : VNet Int), ∀ σ, VNet.value SimDemo.dim v' σ = VNet.value
   simp
 
 end level_exists
+
+section rec_error
+open Ptn.C02 Ptn.C03 Ptn.Ein NodeS
+variable {R : Type} [CommRing R]
+
+/-- **Error identity of one level of `truncate_node` (builder B73).**  For the first loop of `truncate_node(n)` over its
+children (`Lr54LevelRun`, any read-only prefix), on a well-formed label-consistent tree with a related well-formed valued
+network, over every commutative ring: there are the insertion records `all` (one per child, `Pm = Π_c`, fresh legs
+`a'`, `b' = a' + 1`, every cut bond a bond of `v`, `dim b' = dim a` - the dimension clause of `insert_identity`, proved
+from `ident_sim_core`, not assumed) with
+`value before − value after = teleSum` = Σ over the children of the network with the matrices of the earlier children on
+their bonds, `1 − Π_c` on the bond of `c`, the later bonds untouched (`recursive_truncation_value_telescope` instantiated;
+its premise `(allLegs bs all).Nodup` is `lr73_allLegs_nodup`). -/
+theorem truncate_node_level_error_identity (dim : Nat → Nat) (e : Label → Nat) {n : Id} {ids : TTN.TempIds}
+    {kdim : Id → Nat} {pre : List TOp} {t t' : TTN} {g g' : LegMap} {v v' : VNet R} {es : List (Lr54Entry R)}
+    (hacc : ∀ op ∈ pre, ∃ id, op = TOp.access id)
+    (h : t.WF) (hl : t.LWF) (hv : v.WF) (hs : RSim dim e g t v)
+    (hr : Lr54LevelRun dim e n ids kdim pre t g v es t' g' v')
+    (hn : n ∈ v.ids) (hc : ∀ x ∈ es, x.c ∈ v.ids) :
+    ∃ all : List (Ins Nat R), all.map Ins.Pm = es.map (·.Pi) ∧ all.map Ins.a' = es.map (·.a) ∧
+      (∀ i ∈ all, i.b' = i.a' + 1) ∧ (∀ i ∈ all, i.plain ∈ v.bonds) ∧ (∀ i ∈ all, dim i.b' = dim i.a) ∧
+      ∀ σ, v.value dim σ - v'.value dim σ =
+        teleSum dim (lf62Erase v.bonds all) (v.ids.map v.tens) [] all σ :=
+  lr73_level_error dim e hacc h hl hv hs hr hn hc
+
+/-- **Error identity of the whole recursion, as a chain (builder B73).**  Under the hypotheses of
+`recursive_truncation_run_value_partial`: the run exists and there is `E` with `Lr73ErrChain dim v (truncOrder …) v' E` -
+`E` is the sum over the node steps of the `teleSum` of that step - and `original value − final value = E`.
+`_partial`: each summand is a `teleSum` on the network BEFORE its node step (whose tensors are contraction results of the
+earlier steps), not on the ORIGINAL network: the collapse into one record (`recursive_truncation_run_flat_value`) is
+not proved. -/
+theorem recursive_truncation_run_error_identity_partial (dim : Nat → Nat) (e : Label → Nat) {kdim : Id → Nat}
+    {t t' : TTN} {g : LegMap} {v : VNet R} (h : t.WF) (hl : t.LWF) (hv : v.WF) (hs : RSim dim e g t v)
+    (hrun : t.recursiveTruncation kdim = some t')
+    (hO : Lr66RecContract dim e (TTN.arithIds ((t.nodes.map (·.1)).foldl max 0 + 1)) kdim t g v) :
+    ∃ r g' v' E, t.root = some r ∧
+      Lr66RecRun dim e (TTN.arithIds ((t.nodes.map (·.1)).foldl max 0 + 1)) kdim t g v
+        (truncOrder t.S (t.nodes.length + 1) r) t' g' v' ∧
+      Lr73ErrChain dim v (truncOrder t.S (t.nodes.length + 1) r) v' E ∧
+      ∀ σ, v.value dim σ - v'.value dim σ = E σ := by
+  obtain ⟨r, g', v', hr, rr, _⟩ := recursive_truncation_run_value_partial dim e h hl hv hs hrun hO
+  obtain ⟨E, hE⟩ := lr73_rec_error_chain dim e h hl hv hs rr
+  exact ⟨r, g', v', E, hr, rr, hE, lr73ErrChain_total hE⟩
+
+open Ptn.C02.SimDemo Ptn.C10.TvDemo in
+/-- non-vacuity of `truncate_node_level_error_identity` and of a non-trivial `Lr73ErrChain` (one node step with one child):
+the two-node network of `SimDemo`, child `2` of node `1`, `Π = |0⟩⟨0|` (not the delta), `TvDemo.simrunb`, empty prefix -/
+example : ∃ (v' : VNet Int) (all : List (Ins Nat Int)) (E : Asg Nat → Int), all.map Ins.Pm = [Pi0] ∧
+    (∀ σ, VNet.value SimDemo.dim v0 σ - VNet.value SimDemo.dim v' σ =
+      teleSum SimDemo.dim (lf62Erase v0.bonds all) (v0.ids.map v0.tens) [] all σ) ∧
+    Lr73ErrChain SimDemo.dim v0 ([2].map (fun c => (1, c)) ++ []) v' E ∧
+    ∀ σ, VNet.value SimDemo.dim v0 σ - VNet.value SimDemo.dim v' σ = E σ := by
+  obtain ⟨hid, hadm, hdep, t', g', v', hr⟩ := simrunb
+  have hlr : Lr54LevelRun (R := Int) SimDemo.dim SimDemo.e 1 ⟨fun _ => 7, fun _ => 8, fun _ => 9⟩ (fun _ => 3) []
+      t0 SimDemo.g v0 [⟨2, v0.next, Pi0⟩] t' g' v' :=
+    .cons (.nil _ _ _) (.cons hadm hid (.nil _ _ _)) hdep hr (.nil _ _ _)
+  obtain ⟨all, a1, _, a3, a4, a5, a6⟩ := truncate_node_level_error_identity SimDemo.dim SimDemo.e (by simp)
+    t0_wf.1 t0_wf.2 v0_wf rsim0 hlr (by decide) (by decide)
+  have hlen : all.length = [2].length := by
+    have := congrArg List.length a1
+    simpa using this
+  have hch : Lr73ErrChain SimDemo.dim v0 ([2].map (fun c => (1, c)) ++ []) v' _ :=
+    .step all [2] 1 hlen a3 a4 a5 a6 (.nil (fun _ => rfl))
+  exact ⟨v', all, _, by simpa using a1, a6, hch, lr73ErrChain_total hch⟩
+
+end rec_error
 
 end Ptn.C10
